@@ -1553,8 +1553,10 @@ class Processor:
                         ancestry + [(data, ele)], pathseg)
 
         else:
-            # Check the passed data itself for a match
-            matches = Searches.search_matches(method, term, data)
+            # Check the passed data itself for a match; a Scalar has no
+            # attributes other than itself
+            matches = (attr == '.'
+                and Searches.search_matches(method, term, data))
             if (matches and not invert) or (invert and not matches):
                 debug_matched = "query source data itself yielded"
                 self.logger.debug(
